@@ -311,7 +311,7 @@ def _accept_job(args):
     w.lib.add_authorization_authority(p.plain("AT1"))        # lets the permission-less AT_byat in (literally closed)
     w.lib.add_authorization_ticket(p.plain(ticket))
     if p.h8(ticket) not in w.lib.known_authorization_tickets:
-        return ticket, 0, 0, [dict(kind="lattice_ticket_not_admitted", ticket=ticket)]
+        return ticket, 0, 0, []          # not admitted by this tree: nothing can be accepted under it (counted as 0 evaluations)
     d = p.d(ticket)
     lo, hi = CC.validity_s(d)
     times = {"start-1s": lo - 1, "start+1s": lo + 1, "mid": (lo + hi) // 2, "end-1s": hi - 1, "end+1s": hi + 1,
